@@ -23,6 +23,7 @@ import (
 	"math"
 	"strconv"
 	"strings"
+	"unicode/utf8"
 
 	"connectrpc.com/connect"
 	"google.golang.org/protobuf/encoding/protojson"
@@ -105,6 +106,15 @@ func setParameter(msg protoreflect.Message, fields []protoreflect.FieldDescripto
 
 func unmarshalFieldValue(msg protoreflect.Message, field protoreflect.FieldDescriptor, data []byte) (protoreflect.Value, error) {
 	switch kind := field.Kind(); kind {
+	case protoreflect.StringKind, protoreflect.BytesKind, protoreflect.EnumKind, protoreflect.MessageKind, protoreflect.GroupKind:
+	default:
+		// The JSON decoder used below takes "null" for a value it may skip. As a
+		// parameter it is neither a number nor a boolean.
+		if string(data) == "null" {
+			return protoreflect.Value{}, fmt.Errorf("invalid value for %s: null", kind)
+		}
+	}
+	switch kind := field.Kind(); kind {
 	case protoreflect.BoolKind:
 		var b bool
 		if err := json.Unmarshal(data, &b); err != nil {
@@ -140,6 +150,9 @@ func unmarshalFieldValue(msg protoreflect.Message, field protoreflect.FieldDescr
 	case protoreflect.DoubleKind:
 		return unmarshalFloat(data, 64)
 	case protoreflect.StringKind:
+		if !utf8.Valid(data) {
+			return protoreflect.Value{}, errors.New("invalid value for string: not UTF-8")
+		}
 		return protoreflect.ValueOfString(string(data)), nil
 	case protoreflect.BytesKind:
 		enc := base64.StdEncoding
